@@ -29,6 +29,8 @@ What is proved here, for every key length `n > 0`, every tree and every history:
                            `Commit` returns, under `ParOK` (one valid operation per key, nothing reserved, no key equal
                            to a synthetic border); `root_is_pure` puts sequential, parallel and batching together
 
+* `copy_does_not_carry_commitment`, `clone_root_canonical`   `Store.Copy()` hands no cached commitment to the clone
+                           (generated fact), so the clone's `Root()` is the canonical tree of the clone's own state
 * `node_cache_coherent`, `node_cache_transparent`   the in-memory node cache of `setNode`/`getNode`/`delNode` (model
                            `Model/SmtCache.lean`, rules taken from generated facts) is coherent in every reachable state
                            for EVERY capacity: a cached entry is the store's latest node, a read through the cache is a
@@ -193,6 +195,32 @@ example :
     (match stepTop ((empty 5).run ((borders 5).map fun x => Op.set x borderVal)) (.set b [9]) with
       | some t => ((borders 5).foldl (fun s x => delete x s) t).keys.contains b
       | none => true) = false := by decide
+
+/-! ### `Store.Copy()` -/
+
+/-- **Tie to the source.** The composite literal of `Store.Copy()` does not set the clone's cached state-commitment object
+`sc` (read off store/store.go by `facts` on every run): the clone starts without a computed root. -/
+theorem copy_does_not_carry_commitment : Gen.SmtFacts.copyCarriesCommitment = false := by decide
+
+/-- **The root of a clone is a function of the clone's own state**: whatever tree the source store had cached when
+`Copy()` was taken, `Root()` of the clone is the canonical tree of (committed state updated by the clone's pending
+operations) — it depends on `copy_does_not_carry_commitment`: a clone that inherited the cached object would answer with
+the source's earlier tree (`storeRootTree` returns the cached tree when there is one). -/
+theorem clone_root_canonical {n : Nat} (hn : 4 ≤ n) {base : Trie} {S : KMap} {pending : List Op}
+    (sourceCached : Option Trie) (h : base.Rep n S) (hs : S.HasSentinels n) (ok : ParOK n S pending) :
+    ∃ t, storeRootTree n (copyCached Gen.SmtFacts.copyCarriesCommitment sourceCached) base pending = .ok t
+      ∧ t.Rep n (S.run (sortOps pending)) := by
+  have hc : copyCached Gen.SmtFacts.copyCarriesCommitment sourceCached = none := by
+    simp [copyCached, copy_does_not_carry_commitment]
+  rw [hc]
+  refine ⟨base.run (sortOps pending), ?_, (commit_total (by omega) h hs ok.valid).2⟩
+  show commitAuto n base pending = _
+  rw [(parallel_eq_sequential hn h hs ok (List.range 8) (fun i => List.mem_range)).2.2]
+  exact (commit_total (by omega) h hs ok.valid).1
+
+/-- a clone that inherited the source's cached tree would return it unchanged, whatever it is asked to write -/
+example (n : Nat) (t base : Trie) (pending : List Op) :
+    storeRootTree n (copyCached true (some t)) base pending = .ok t := rfl
 
 /-! ### the node cache -/
 section NodeCache
